@@ -576,3 +576,7 @@ for _s, _p in (((1, 1), (1, 0)), ((2, 0), (0, 1)), ((0, 0), (1, 1)), ((2, 1), (0
 CASES.append(Case("make_dxdtf/multi-cell-refused", not_single_cell_case, functions=["RDSystem.make_dxdtf"], sym=False))
 CASES.append(Case("dstatedt/layout-bounded", dstatedt_layout_case, functions=["compute_dstatedt"], sym=False,
                   bounded="grids 1x1x1, 2x1x1, 2x2x1, 3x1x2 with 1-3 species, both chemostat modes (exhaustive over this list)"))
+
+# engine side (real C++): constants derived by the engine and its deterministic reaction rate
+from props import C01_engine as _ENG
+CASES += _ENG.cases("C01")
